@@ -137,7 +137,10 @@ def classify(run, lmap, fns_by_key):
                 for (cf, cl) in CLOSURE_PRE:
                     if fnm.endswith(cf) and sp.get("line_start") == cl: closure_pre = True
         props_own = set(props); props |= deps_props
-        failures.append({"obligation": name, "kind": kind, "fn": key, "label": label, "props": sorted(props), "props_own": sorted(props_own), "message": msg, "closure_pre": closure_pre,
+        # a failing assertion / lemma precondition inside woven proof text (repo code has no Verus `assert(..)`; its assert! macros become runtime_assert)
+        span_txt = " ".join(t.get("text", "") for sp in spans for t in (sp.get("text") or []))
+        hint_assert = (msg.startswith("assertion failed") or msg.startswith("precondition not satisfied")) and "runtime_assert" not in span_txt and bool(re.search(r"/\*@H:|\bassert\s*\(|\bproof\s*\{|\blemma_\w+\s*\(", span_txt))
+        failures.append({"obligation": name, "kind": kind, "fn": key, "label": label, "props": sorted(props), "props_own": sorted(props_own), "message": msg, "closure_pre": closure_pre, "hint_assert": hint_assert,
                          "line": prim["line_start"] if prim else None, "text": txt, "rendered": (d.get("rendered") or "")[:3000],
                          "src_file": (fnmeta or {}).get("file"), "src_line": (fnmeta or {}).get("src_line")})
     return failures, frontend, canary
@@ -257,7 +260,7 @@ def main(argv):
         json.dump({"%s|%s::%s" % (f["file"], f["impl"], f["fn"]): f["body_hash"] for f in ctx.fn_index}, open(os.path.join(VERIF, "baseline_fns.json"), "w"), indent=0, sort_keys=True)
         json.dump({"%s|%s::%s" % (f["file"], f["impl"], f["fn"]): f.get("sig_norm", "") for f in ctx.fn_index}, open(os.path.join(VERIF, "baseline_sigs.json"), "w"), indent=0, sort_keys=True)
         json.dump({"%s|%s::%s" % (f["file"], f["impl"], f["fn"]): f.get("params") for f in ctx.fn_index if f.get("params")}, open(os.path.join(VERIF, "baseline_params.json"), "w"), indent=0, sort_keys=True)
-        json.dump({"%s|%s::%s" % (f["file"], f["impl"], f["fn"]): {"closure_calls": f.get("closure_calls", 0)} for f in ctx.fn_index}, open(os.path.join(VERIF, "baseline_meta.json"), "w"), indent=0, sort_keys=True)
+        json.dump({"%s|%s::%s" % (f["file"], f["impl"], f["fn"]): {"closure_calls": f.get("closure_calls", 0), "callees": f.get("callees", []), "loops": f.get("loops", 0), "ret": (f.get("sig_norm", "").split("->", 1)[1].strip() if "->" in f.get("sig_norm", "") else "")} for f in ctx.fn_index}, open(os.path.join(VERIF, "baseline_meta.json"), "w"), indent=0, sort_keys=True)
         print("baseline written"); return 0
     baseline = {}
     bp = os.path.join(VERIF, "baseline_fns.json")
@@ -451,10 +454,20 @@ def main(argv):
         failed_fns = set(f["fn"] for f in fails if f["fn"])
         discharged = len([o for o in obls if o not in failed_names and not (o.endswith(".body.safety") and o[:-len(".body.safety")] in failed_fns)])
         # does a refutation rest on dropped proof hints or on a new function without contract?  then it needs a concrete witness
+        hint_fail_fns = set(x["fn"] for x in base if x.get("hint_assert") and x["fn"])
         def weak(f):
             fn = fns_by_key.get(f["fn"] or "", {})
             if fn.get("closure_calls", 0) > BASELINE_META.get(f["fn"] or "", {}).get("closure_calls", 0):
                 return "the changed body passes closures to Option/Result/iterator combinators; the verifier does not see what an un-annotated closure returns"
+            bm = BASELINE_META.get(f["fn"] or "")
+            if bm is not None and "callees" in bm and (f["fn"] in changed_fns):
+                # (std selectors / predicates with exact vstd specifications do not count: swapping one for another is decided by the verifier)
+                newc = sorted(set(fn.get("callees", [])) - set(bm["callees"]) - {"is_some", "is_none", "is_ok", "is_err", "is_empty", "len", "unwrap", "min", "max", "clone", "eq", "ne", "Some", "Ok", "Err"})
+                if newc: return "the changed body calls what the old one did not (%s): the contract's proof was written against the old calls and may simply lack a lemma about the new ones" % ", ".join("`%s`" % c for c in newc[:6])
+                if fn.get("loops", 0) > bm.get("loops", 0): return "the changed body has a loop the old one did not have; without a loop invariant the verifier knows nothing about its result"
+                nret = (fn.get("sig_norm", "").split("->", 1)[1].strip() if "->" in fn.get("sig_norm", "") else "")
+                if nret != bm.get("ret", nret): return "the function's return type changed (%s -> %s); the contract was written for the old one" % (bm.get("ret") or "()", nret or "()")
+            if f.get("hint_assert") or (f["fn"] and f["fn"] in hint_fail_fns): return "a proof hint (an assertion woven in from the contract file, written for the old statement order) no longer holds at its anchor"
             if f.get("closure_pre"): return "precondition of a closure passed to an Option/Result combinator (ghost-level only: no run-time check corresponds to it)"
             if pid not in f.get("props_direct", f["props"]): return "obligation of a callee that does not name this property (reached through the call cone only)"
             if pid not in f.get("props_own", f["props"]): return "the clause does not name this property; an obligation of this property rests on it in a caller's proof (proof-dependency table)"
@@ -463,6 +476,11 @@ def main(argv):
             for k2 in drop_contracts:
                 n2 = fns_by_key.get(k2, {}).get("fn")
                 if n2 and re.search(r"\b%s\s*\(" % re.escape(n2), bt): return "calls `%s` whose contract no longer type-checks against its changed signature (contract dropped)" % n2
+            for k2 in changed_fns:
+                f2 = fns_by_key.get(k2, {}); b2 = BASELINE_META.get(k2)
+                if not b2 or "ret" not in b2 or k2 == f["fn"]: continue
+                r2 = (f2.get("sig_norm", "").split("->", 1)[1].strip() if "->" in f2.get("sig_norm", "") else "")
+                if r2 != b2["ret"] and f2.get("fn") and re.search(r"\b%s\s*\(" % re.escape(f2["fn"]), bt): return "calls `%s` whose return type changed (%s -> %s); its contract was written for the old one" % (f2["fn"], b2["ret"] or "()", r2 or "()")
             for n in new_names:
                 if n in inlined_names: continue
                 if re.search(r"\b%s\s*\(" % re.escape(n), bt): return "calls new function `%s` which has no contract" % n
